@@ -38,6 +38,7 @@ type Prog struct {
 	AllTypes map[string]*types.Package    // every types.Package reachable (roots + deps)
 
 	fns     map[*types.Func]*Fn
+	varFns  map[string]*Fn
 	fnList  []*Fn
 	parents map[ast.Node]ast.Node
 	fileOf  map[*ast.File]*packages.Package
@@ -107,7 +108,7 @@ func Load(opts LoadOpts) (*Prog, error) {
 	}
 	p := &Prog{Dir: opts.Dir, GOARCH: opts.GOARCH, Fset: fset,
 		ByPath: map[string]*packages.Package{}, AllTypes: map[string]*types.Package{},
-		fns: map[*types.Func]*Fn{}, parents: map[ast.Node]ast.Node{}, fileOf: map[*ast.File]*packages.Package{}}
+		fns: map[*types.Func]*Fn{}, varFns: map[string]*Fn{}, parents: map[ast.Node]ast.Node{}, fileOf: map[*ast.File]*packages.Package{}}
 	var errs []string
 	for _, pkg := range pkgs {
 		if !strings.HasPrefix(pkg.PkgPath, Module) {
@@ -180,6 +181,24 @@ func (p *Prog) indexFile(pkg *packages.Package, f *ast.File) {
 		return true
 	})
 	for _, d := range f.Decls {
+		// package-level `var name = func(...) {...}` is analysed like a function
+		if gd, ok := d.(*ast.GenDecl); ok {
+			for _, sp := range gd.Specs {
+				vs, ok := sp.(*ast.ValueSpec)
+				if !ok || len(vs.Names) != len(vs.Values) {
+					continue
+				}
+				for i, v := range vs.Values {
+					if lit, ok := v.(*ast.FuncLit); ok {
+						fn := &Fn{Prog: p, Pkg: pkg, Lit: lit, Body: lit.Body, Type: lit.Type,
+							name: strings.TrimPrefix(pkg.PkgPath, Module+"/") + "." + vs.Names[i].Name}
+						p.varFns[pkg.PkgPath+"."+vs.Names[i].Name] = fn
+						p.fnList = append(p.fnList, fn)
+					}
+				}
+			}
+			continue
+		}
 		fd, ok := d.(*ast.FuncDecl)
 		if !ok || fd.Body == nil {
 			continue
@@ -289,6 +308,9 @@ func (p *Prog) LookupFunc(pkg, recv, name string) *Fn {
 	}
 	recv = strings.TrimPrefix(recv, "*")
 	if recv == "" {
+		if vf := p.varFns[pk.PkgPath+"."+name]; vf != nil {
+			return vf
+		}
 		o, _ := pk.Types.Scope().Lookup(name).(*types.Func)
 		return p.FnOf(o)
 	}
